@@ -119,6 +119,23 @@ func init() {
 			}
 			return nil
 		},
+		"vsymPreemptAt": func(m *Machine, _ *frame, _ *ssa.Function, a []value) value {
+			m.preemptAt = int(int64(m.path.Concretise(a[0].(*Term), "preempt-at")))
+			m.preemptSeen = 0
+			m.preemptHit = false
+			return nil
+		},
+		"vsymPreemptCovered": func(m *Machine, _ *frame, _ *ssa.Function, a []value) value {
+			k := int(int64(m.path.Concretise(a[0].(*Term), "preempt-covered")))
+			if m.preemptAt >= 0 && m.preemptSeen > k {
+				m.path.end(fmt.Sprintf("bound: spawned goroutines executed %d call instructions, preemption points range over %d only", m.preemptSeen, k))
+			}
+			return nil
+		},
+		"vsymFmtOpaque": func(m *Machine, _ *frame, _ *ssa.Function, a []value) value {
+			m.fmtOpaque = a[0].(*Term).K != 0
+			return nil
+		},
 		"vsymPoolReuse": func(m *Machine, _ *frame, _ *ssa.Function, a []value) value {
 			m.poolReuse = a[0].(*Term).K != 0
 			return nil
@@ -137,7 +154,19 @@ func init() {
 		},
 	}
 
+	fpUnary := func(mode string) interceptFn {
+		return func(m *Machine, _ *frame, _ *ssa.Function, a []value) value { return m.fpRound(mode, a[0].(*Term)) }
+	}
 	models = map[string]interceptFn{
+		"math.Trunc":            fpUnary("RTZ"),
+		"math.archTrunc":        fpUnary("RTZ"),
+		"math.Floor":            fpUnary("RTN"),
+		"math.archFloor":        fpUnary("RTN"),
+		"math.Ceil":             fpUnary("RTP"),
+		"math.archCeil":         fpUnary("RTP"),
+		"math.Sqrt":             fpUnary("sqrt"),
+		"math.sqrt":             fpUnary("sqrt"),
+		"math.archSqrt":         fpUnary("sqrt"),
 		"math.Float32bits":      identity,
 		"math.Float32frombits":  identity,
 		"math.Float64bits":      identity,
